@@ -807,8 +807,8 @@ Qed.
    (the dictionary read back in any spelling [sts], Length set), the decompression attempt leaves the payload -- no Filter:
    Stream::decompress fails and the stream stays as it is; ASCII85, ASCIIHex, stored-block Flate, ASCII85 around Flate: the
    chain is decoded (C02_filter_chain_decodes) -- and the members are exactly the denoted objects (C02_objstm_any_spelling).
-   PARTIAL: no PNG predictor on the object stream ([no_pred]: the writer pads such a payload with spaces to whole rows);
-   the loop of the reader over a file with containers (read_entries_x / merge_object_streams) is not composed. *)
+   (the statement of round 3, without predictor [no_pred]; C02_objstm_new_any_filter below covers the predictors, and
+   C02_loads_objstm_partial composes the loop of the reader over a file with containers). *)
 Theorem C02_objstm_new_filtered :
   forall (objs : list (oid * obj)) (s : ostm) (items : list ositem) (sts : list (nstyle * filler * ostyle * filler)),
     os_build objs (os_members s) (os_items s) true = Some items -> os_members s <> [] -> NoDup (os_members s) ->
@@ -842,8 +842,9 @@ Proof. eexists. split; [vm_compute; reflexivity|]. split; [exact I|vm_compute; r
    against c01's extended reader with Stream::decompress := decompress_ref.  For every style with a cross-reference stream
    -- any W, any Index partition, no filter or any of the filter chains incl. predictors (as C02_loads_stream_filtered_partial) --
    ANY NUMBER OF OBJECT STREAMS holding any subset of the generation-0 non-stream objects (every member in any spelling, any
-   index white-space, the container under no filter / ASCII85 / ASCIIHex / stored-block Flate / ASCII85 around Flate, its own
-   dictionary in any spelling), top-level objects in any order and spelling, streams whose Length is written directly, as a
+   index white-space, the container under no filter / ASCII85 / ASCIIHex / stored-block Flate / ASCII85 around Flate, with Flate
+   ANY PNG PREDICTOR (the payload filled with spaces to whole rows of the width the style chooses: C02_objstm_new_any_filter), its
+   own dictionary in any spelling), top-level objects in any order and spelling, streams whose Length is written directly, as a
    reference to a TOP-LEVEL integer object (the reader finds it while parsing: eager) or as a reference to an integer KEPT IN AN
    OBJECT STREAM (the reader leaves the stream without content and Reader::read_stream_content restores it after the object
    streams are merged: deferred): load_ext returns a document with the version, the trailer = the stream dictionary as read
@@ -851,13 +852,14 @@ Proof. eexists. split; [vm_compute; reflexivity|]. split; [exact I|vm_compute; r
      every top-level object as [loaded_top] (a stream with exactly its data, Length an integer),
      every member of every object stream as [member_val] (= [denote] of the object in the style its container gives it:
        C02_member_value), under generation 0,
-     every container (Type ObjStm, decoded payload) and the cross-reference stream object under their own numbers,
+     every container (Type ObjStm, decoded payload, followed by the spaces a predictor's rows added) and the cross-reference
+       stream object under their own numbers,
      and nothing else.
    The three passes of the reader (read the entries in use; merge the object streams: members the table places in a container
    first, or_insert; restore the streams left without content) are proved format-independently in Proofs/LoadsLoopProofs.v.
-   PARTIAL with respect to C02_full in these points only: [cont_ok]: no PNG predictor on an object stream (the writer pads
-   such a payload with spaces to whole rows: not composed), every container has at least one member and at most 65536 (lopdf
-   keeps the index in its container as a u16), the payload's objects below 4 GiB; (b)-(d) as for the other formats. *)
+   Named _partial only because C02_full below restates it by value for both formats; hypotheses: [cont_ok]: every container
+   has at least one member and at most 65536 (lopdf keeps the index in its container as a u16), the payload's objects (with a
+   predictor's padding) below 4 GiB, a predictor's row width a machine integer; (b)-(d) as for the other formats. *)
 Theorem C02_loads_objstm_partial :
   forall (st : fstyle) (a : adoc) (x : xsstyle) (file : bytes),
     s_xref st = XStream x -> ref_write st a = Some file ->
@@ -880,8 +882,8 @@ Theorem C02_loads_objstm_partial :
       (forall s n, In s (s_ostms st) -> In n (os_members s) ->
                    lookup (d_objects d) (n, 0) = Some (LoadsObjStmProofs.member_val (a_objs a) s n)) /\
       (forall s, In s (s_ostms st) ->
-                 exists d', lookup (d_objects d) (os_id s, 0) =
-                            Some (OStream d' (ObjStmFilterProofs.payload s (LoadsObjStmFile.itemsof a s)))) /\
+                 exists d' k, lookup (d_objects d) (os_id s, 0) =
+                              Some (OStream d' (ObjStmFilterProofs.payload s (LoadsObjStmFile.itemsof a s) ++ repeat x20 k))) /\
       lookup (d_objects d) (xs_id x, 0) =
         Some (stream_new (LoadsObjStmFile.ddG st a x (LoadsObjStmWhole.contsof st a) (snd (LoadsObjStmWhole.gxs_enc st a x))
                             (fst (LoadsObjStmWhole.gxs_enc st a x))) (fst (LoadsObjStmWhole.gxs_enc st a x))) /\
@@ -1004,6 +1006,40 @@ Proof.
   vm_compute. split; reflexivity.
 Qed.
 
+(* OBJECT STREAMS UNDER ANY FILTER CHAIN INCL. PNG PREDICTORS: the payload of an object stream has no row width of its own;
+   the reference writer chooses one (Columns x Colors x BitsPerComponent), fills the payload with spaces to whole rows -- legal
+   white-space after the last object -- and filters row by row with any row type per row.  Stream::decompress returns the
+   padded payload and ObjectStream::new reads exactly the members from it (the padded payload is the payload of the same
+   members with a longer white-space run after the last one: Proofs/ObjStmPredProofs.v pad_last / pad_sts). *)
+Theorem C02_objstm_new_any_filter :
+  forall (objs : list (oid * obj)) (s : ostm) (items : list ositem) (sts : list (nstyle * filler * ostyle * filler)),
+    os_build objs (os_members s) (os_items s) true = Some items -> os_members s <> [] -> NoDup (os_members s) ->
+    Forall (fun m => m <= u32_max) (os_members s) ->
+    Forall (fun oy => ObjStmSpellProofs.mem_ok (fst oy) (snd oy)) (ObjStmSpellProofs.os_pairs objs (os_members s) (os_items s)) ->
+    N.of_nat (length (flat_map oi_text items) + ObjStmPredProofs.pad_max (os_filter s)) <= u32_max ->
+    ObjStmPredProofs.pred_row_ok (os_filter s) ->
+    exists d' k, objstm_new LoadsFilterProofs.decompress_ref (ObjStmFilterProofs.D s items sts) (fst (ObjStmFilterProofs.enc s items)) =
+                 ((d', ObjStmFilterProofs.payload s items ++ repeat x20 k), OsOk (ObjStmFilterProofs.members_val objs s items)).
+Proof. exact ObjStmPredProofs.objstm_new_ref_any. Qed.
+
+Definition ex_ostm_pred : ostm :=
+  {| os_id := 20; os_members := [4; 7; 5]; os_items := ex_os_sts; os_hdr_end := [5];
+     os_filter := SfFlate 7 (Some {| p_pred := 5; p_cols := 3; p_types := [4; 0; 2; 3; 1]; p_colors := 1; p_bpc16 := true; p_explicit := false |});
+     os_array := false; os_istyle := default_istyle |}.
+
+(* non-vacuity: the same three members behind Flate with Predictor 15, Columns 3, Colors 2, BitsPerComponent 16 (rows of 12 bytes,
+   row types Paeth / None / Up / Average / Sub): the payload of 47 bytes is filled to 48 *)
+Theorem C02_example_objstm_pred :
+  exists items,
+    os_build ex_os_objs (os_members ex_ostm_pred) (os_items ex_ostm_pred) true = Some items /\
+    ObjStmPredProofs.pred_row_ok (os_filter ex_ostm_pred) /\ ObjStmPredProofs.pad_max (os_filter ex_ostm_pred) = 12%nat /\
+    length (ObjStmFilterProofs.payload ex_ostm_pred items) = 47%nat /\
+    objstm_new LoadsFilterProofs.decompress_ref (ObjStmFilterProofs.D ex_ostm_pred items []) (fst (ObjStmFilterProofs.enc ex_ostm_pred items)) =
+    (([(bs "Type", OName (bs "ObjStm")); (bs "N", OInt 3); (bs "First", OInt 14); (bs "Length", OInt 48)],
+      ObjStmFilterProofs.payload ex_ostm_pred items ++ [x20]),
+     OsOk [((4, 0), OInt 5); ((5, 0), OName (bs "N x")); ((7, 0), ODict [(bs "K", OArr [ORef 1 0; OStr (bs "a") false])])]).
+Proof. eexists. split; [vm_compute; reflexivity|]. split; [vm_compute; discriminate|]. repeat split; vm_compute; reflexivity. Qed.
+
 (* the frame: Reader::read reduced to its pieces, for any file junk ++ F *)
 Theorem C02_load_frame :
   forall (junk F pre xr : bytes) version x0 t0 objs,
@@ -1019,7 +1055,7 @@ Proof. exact LoadsFrameProofs.load_frame. Qed.
 (* ---------------------------------------------------------------------------------------------
    C02_full: THE PROPERTY, for every single-section file of the reference writer's style space -- both cross-reference
    formats, object streams, Length direct or by reference (resolved while parsing or after the object streams), every filter
-   chain on the cross-reference stream and (without predictor) on object streams, every spelling, order and filler --
+   chain incl. every PNG predictor on the cross-reference stream and on object streams, every spelling, order and filler --
    against c01's extended reader LoaderExt.load_ext with Stream::decompress := decompress_ref (lopdf's plumbing on the Gallina
    decoders).  load_ext is conservative over Loader.load (C01_loader_ext_conservative), which answers LUnmodelled for three
    of these features: C02_full_over_load restates the theorem for Loader.load wherever that model answers.
@@ -1040,8 +1076,8 @@ Proof. exact LoadsFrameProofs.load_frame. Qed.
    * the trailer holds none of Size / Prev / Encrypt (and, in the stream format, Filter / DecodeParms / Index): Size is the
      writer's, Prev = several sections (C02_loads_multi_partial), Encrypt = C05's domain, hybrid files are excluded by the text;
    * [cont_ok]: an object stream has at least one and at most 65536 members (lopdf keeps the index within the container as a
-     u16), its payload is below 4 GiB, NO PNG PREDICTOR on an object stream (the one style choice not covered: the writer pads
-     such a payload with spaces to whole rows -- C02_objstm_predictor_partial names it);
+     u16), its payload (with the spaces a predictor's rows add) is below 4 GiB, a predictor's row width (Columns x Colors x
+     BitsPerComponent / 8) is a machine integer;
    * sizes: file positions and object numbers fit u32 (files below 4 GiB), the widths sum a machine integer, the version is
      UTF-8 (lopdf's version is a String), the file is larger than 25 bytes and the startxref block keeps "startxref" within the
      25 bytes before "%%EOF" that Reader::get_xref_start searches ([sx_window]: padding of at most 12 spaces; 7.5.5 says the
@@ -1123,24 +1159,16 @@ Proof.
 Qed.
 
 (* what stays outside C02_full, by name:
-   (a) a PNG predictor on an OBJECT STREAM (Spec/RefWriter.v predict with natural width 0: the payload is padded with spaces
-       to whole rows).  The per-stream result without predictor is C02_objstm_new_filtered, the predictor on data made of
-       whole rows is C02_filter_chain_decodes; not composed: the padded payload (ObjectStream::new ignores the trailing
-       white-space) -- [no_pred] in cont_ok.
-   (b) files of SEVERAL SECTIONS (ref_write_multi: Prev chain, objects listed again, superseded definitions): the reader's
+   (a) files of SEVERAL SECTIONS (ref_write_multi: Prev chain, objects listed again, superseded definitions): the reader's
        three passes are proved for ANY merged table (Proofs/LoadsLoopProofs.v: C02_merge_object_streams,
-       C02_zero_length_pass, read_entries_x_loop take the merged table as a parameter); missing: prev_loop_x over the
-       sections of write_parts (each section decodes by the single-section lemmas; the merge is C07's merge_chain_latest)
-       and the layout of write_parts (offsets per part).  Checked by correspondence and direct verdict (load-multi* cases).
-   (c) the class of C02-deep-parens is stated on the RAW parentheses of the spelling (raw_depth_ok), the check's class
+       C02_zero_length_pass, read_entries_x_loop and load_ext_frame_loop take the merged table / the result of prev_loop_x as
+       parameters); missing: prev_loop_x over the sections of write_parts (each section decodes by the single-section lemmas
+       once they are restated for section_text with a Prev entry; the merge is C07's merge_chain_latest) and the layout of
+       write_parts (offsets per part, superseded bodies that no entry names).  Checked by correspondence and direct verdict
+       (load-multi* cases).
+   (b) the class of C02-deep-parens is stated on the RAW parentheses of the spelling (raw_depth_ok), the check's class
        Known_deep_parens on all parentheses of the string: a style that escapes closing parentheses while leaving more than
        100 opening ones raw is in the theorem's class but not in the check's (not drawn by the generator). *)
-Definition C02_objstm_predictor_partial : Prop :=
-  forall (st : fstyle) (a : adoc) (file : bytes),
-    (exists s, In s (s_ostms st) /\ ~ LoadsFilterProofs.no_pred (os_filter s)) ->
-    ref_write st a = Some file ->
-    exists d t, LoaderExt.load_ext LoadsFilterProofs.decompress_ref LoadsFilterProofs.can_ref file = LOk d t /\
-                d_version d = a_version a.
 Definition C02_loads_multi_partial : Prop :=
   forall (st : fstyle) (parts : list mpart) (a : adoc) (file : bytes),
     ref_write_multi st parts a = Some file ->
@@ -1282,6 +1310,8 @@ Print Assumptions C02_member_value.
 Print Assumptions C02_merge_object_streams.
 Print Assumptions C02_zero_length_pass.
 Print Assumptions C02_example_loads_objstm.
+Print Assumptions C02_objstm_new_any_filter.
+Print Assumptions C02_example_objstm_pred.
 Print Assumptions C02_load_frame.
 Print Assumptions C02_full.
 Print Assumptions C02_full_over_load.
